@@ -9,7 +9,7 @@
    RP.TmgrSched.Oracle that the harness applies to the implementation's trace. *)
 From Coq Require Import ZArith List Bool.
 From RP Require Import Gen.StatesTables States.Model States.Inst
-  TmgrSched.Model TmgrSched.Oracle TmgrSched.Proofs TmgrSched.Proofs2 TmgrSched.Balance TmgrSched.Proofs3.
+  TmgrSched.Model TmgrSched.Oracle TmgrSched.Proofs TmgrSched.Proofs2 TmgrSched.Balance TmgrSched.Proofs3 TmgrSched.Proofs4.
 Import ListNotations.
 Open Scope Z_scope.
 
@@ -147,20 +147,40 @@ Example C12_batch_not_dropped :
   /\ stq 1 (s_pilots (fst (run_st c st0 ops))) = Some P_DONE.
 Proof. vm_compute. repeat split. Qed.
 
-(* backfilling usage accounting, full statement REFUTED on the code as it is:
-   a history exists after which every task placed on a pilot has been reported
-   finished and the pilot's usage figure is not 0 (Backfilling.update_tasks
-   raises on the early-bound task and drops the rest of the batch).  The
-   witness is corpus/C12/bf-early-bound-aborts-batch.json; finding recorded. *)
-Theorem C12_bf_used_zero_refuted :
-  exists (c : cfg) (ops : list op),
-    c_kind c = BF /\ ok_bf_used_zero c ops (run c st0 ops) = false.
-Proof. exact bf_used_zero_refuted. Qed.
-Print Assumptions C12_bf_used_zero_refuted.
+(* backfilling usage accounting, full statement (repository fixes ec949f9 and
+   ac9bb76 modelled).  Over ANY history -- submissions with and without named
+   pilots, add/remove/re-add, rejected commands, arbitrary pilot and task state
+   notifications incl. overridden pilot fields and unknown uids -- with unique
+   task uids and non-negative core counts, for the Backfilling scheduler:
+   no task state notification batch raises (in particular `used < 0` is
+   unreachable), and for every pilot info['used'] equals the cores of the tasks
+   placed on it (since it was last added) that are not yet credited, is never
+   negative, and is 0 as soon as every placed task has been credited. *)
+Theorem C12_bf_used_accounting :
+  forall (c : cfg) (ops : list op), c_kind c = BF -> UniqueTasks ops ->
+    let s := fst (run_st c st0 ops) in
+    tst_ok ops (run c st0 ops) = true /\
+    forall p i, info_of p (s_pilots s) = Some i ->
+      i_used i = outstanding (s_tk s) i /\ 0 <= i_used i /\
+      ((forall u, In u (i_tasks i) -> In u (i_done i)) -> i_used i = 0).
+Proof. exact bf_used_accounting. Qed.
+Print Assumptions C12_bf_used_accounting.
 
-(* ... what does hold: a finished-notification that update_tasks accepts for a
-   task it placed credits exactly that task's cores back, once *)
-Theorem C12_bf_used_zero_partial :
+(* ... and every placed task that a batch reports beyond AGENT_EXECUTING is
+   credited by Backfilling.update_tasks, whatever else the batch contains
+   (early-bound tasks, tasks placed before a re-add, tasks of pilots known only
+   by state, duplicates, unknown uids): the batch is processed to its end *)
+Theorem C12_bf_batch_credited :
+  forall (c : cfg) (ops : list op) (ns : list (Z * tstate * Z)),
+    c_kind c = BF -> UniqueTasks ops ->
+    let s := fst (run_st c st0 ops) in
+    let rs := map (resolve (s_tk s)) ns in
+    exists pl' b, ut_loop rs (s_pilots s) false = (pl', b, None) /\ Cred rs pl'.
+Proof. exact bf_batch_credited. Qed.
+Print Assumptions C12_bf_batch_credited.
+
+(* one accepted finished-notification credits exactly that task's cores, once *)
+Theorem C12_bf_credit_once :
   forall (pl : list (Z * pil)) (uid pid cores : Z) (st : tstate) (p : pil) (i : info),
     aget pid pl = Some p -> p_info p = Some i ->
     memz uid (i_tasks i) = true -> memz uid (i_done i) = false ->
@@ -169,7 +189,43 @@ Theorem C12_bf_used_zero_partial :
       used_of (getp pid pl') = i_used i - cores /\
       ut_loop [(uid, Some pid, st, cores)] pl' false = (pl', false, None).
 Proof. exact bf_credit_once. Qed.
-Print Assumptions C12_bf_used_zero_partial.
+Print Assumptions C12_bf_credit_once.
+
+(* regressions: the witnesses of the two former refutations.  (1) the finished
+   early-bound task 1 no longer aborts the batch (was RuntimeError, ac9bb76):
+   task 2 is credited, used = 0.  (2) the notification of task 1, which names
+   pilot 2 known only from a state notification, is ignored (was
+   KeyError('done'), ec949f9): task 2 is credited, used = 0. *)
+Example C12_early_bound_batch_not_aborted :
+  let c := mkCfg BF 200 4 4 in
+  let ops := [OAdd TMine [(1, P_PMGR_ACTIVE, 4)];
+              OSubmit [mkTask 1 (Some 1) 1; mkTask 2 None 2];
+              OTStates [(1, T_DONE, -1); (2, T_DONE, -1)]] in
+  map (fun r => snd (fst r)) (run c st0 ops) = [None; None; None]
+  /\ info_of 1 (s_pilots (fst (run_st c st0 ops))) = Some (mkInfo 8 0 [2] [2])
+  /\ ok_bf_used_zero c ops (run c st0 ops) = true.
+Proof. vm_compute. repeat split. Qed.
+
+Example C12_state_only_pilot_batch_not_aborted :
+  let c := mkCfg BF 200 4 4 in
+  let ops := [OPStates [(2, P_PMGR_ACTIVE)]; OAdd TMine [(1, P_PMGR_ACTIVE, 4)];
+              OSubmit [mkTask 1 (Some 2) 1; mkTask 2 None 2];
+              OTStates [(1, T_TMGR_SCHEDULING, -1); (2, T_DONE, -1)]] in
+  map (fun r => snd (fst r)) (run c st0 ops) = [None; None; None; None]
+  /\ info_of 1 (s_pilots (fst (run_st c st0 ops))) = Some (mkInfo 8 0 [2] [2])
+  /\ ok_bf_used_zero c ops (run c st0 ops) = true.
+Proof. vm_compute. repeat split. Qed.
+
+(* the remaining `raise RuntimeError` of update_tasks (used < 0) needs an input
+   outside UniqueTasks: here the uid 1 is submitted twice with different core
+   counts and a notification with a foreign pilot field credits the 5 cores of
+   the second dict against the 1 core placed for the first *)
+Example C12_used_negative_needs_duplicate_uid :
+  let c := mkCfg BF 200 4 4 in
+  let ops := [OAdd TMine [(1, P_PMGR_ACTIVE, 4)]; OSubmit [mkTask 1 None 1];
+              OSubmit [mkTask 1 (Some 9) 5]; OTStates [(1, T_DONE, 1)]] in
+  map (fun r => snd (fst r)) (run c st0 ops) = [None; None; None; Some ERuntime].
+Proof. vm_compute. reflexivity. Qed.
 
 (* non-vacuity: a concrete backfilling history with an early-bound task, a
    pilot that fills up to its high-water mark, a removal and a re-add *)
